@@ -24,6 +24,7 @@ EXPLANATION = (
     "returns one entry per statement segment, in order, and caches exactly those segments. Does not decide: lexing of semicolons in "
     "literals/comments (sqlparse) and T-SQL batch boundaries (sqlfluff grammar)."
     ' R05.5 (= R10.11 on the evaluation routine): the statement list and the results are assigned on every path of a run.'
+    " R05.6 also requires that each holder's graph is composed into a fresh result before its effects are applied (= R03.2, compose-first)."
 )
 RULE_TEXT = "one obligation per store/iteration/append of the statement list, per skip path of split(), per constructor site of extractors/handlers"
 
